@@ -542,6 +542,14 @@ class Expander:
                 base.items[_const_index(t.slice)] = v
             else:
                 env[ast.unparse(t)] = v
+                # a masked overwrite of a local that already holds a computed value (`z[abs(z) > 30] = 30`, `x[x > hi] = hi`): some of
+                # its entries are replaced depending on the data - the name no longer stands for the value the algebra holds
+                masked = any(isinstance(x, ast.Compare) for x in ast.walk(t.slice)) or \
+                    (isinstance(t.slice, ast.Name) and isinstance(env.get(t.slice.id), CmpV))
+                if masked and isinstance(t.value, ast.Name) and isinstance(base, R) and not base.is_zero():
+                    # (a distinct symbol, not a poison: the value IS another one wherever the mask holds - a formula rule that reads it
+                    # reports the difference instead of ending undecided)
+                    env[t.value.id] = R.sym(f"{t.value.id}<entries where {ast.unparse(t.slice)[:40]} overwritten at line {getattr(t, 'lineno', 0)}>")
         elif isinstance(t, ast.Attribute):
             env[ast.unparse(t)] = v
         elif isinstance(t, ast.Starred):
